@@ -461,6 +461,7 @@ func (s *Sim) Run() string {
 			s.Stats.Stalls++
 		}
 		markStep(s, true)
+		Refill()
 		s.mu.Lock()
 		t.state = tRunning
 		s.mu.Unlock()
